@@ -29,7 +29,13 @@ def leaf_name(t):
         if tag in ("ref", "deref"):
             t = t[1]
         elif tag == "field":
-            parts.append(str(t[2]))
+            inner = t[1]
+            while inner[0] in ("ref", "deref"):
+                inner = inner[1]
+            if str(t[2]) == "0" and inner[0] == "field" and not str(inner[2]).isdigit():
+                pass     # payload of a single-field wrapper around a named field (`self.flags.0`): the field itself
+            else:
+                parts.append(str(t[2]))
             t = t[1]
         elif tag == "param":
             nm = t[2] or ("arg%d" % t[1])
@@ -171,6 +177,11 @@ class Lits:
             x = a[1]
             while x[0] in ("ref", "deref"):
                 x = x[1]
+            if x[0] == "agg" and x[2] in ("Some", "Ok", "None", "Err"):
+                # a test of a value built on this very path (e.g. the `Some(())` of an inlined `check()?` helper)
+                if (x[2] in ("Some", "Ok")) == (k == "ok"):
+                    return []
+                return [(("ext", "never", "-"), True), (("ext", "never", "-"), False)]
             pr = self.checked_add_pair(x)
             if pr:
                 return [(("nowrap", pr[0], pr[1]), k == "ok")]
@@ -202,6 +213,20 @@ class Lits:
             x = a[1]
             while x[0] in ("ref", "deref"):
                 x = x[1]
+            if x[0] == "call" and x[1] == "contains" and len(x[2]) == 2:
+                # (lo..=hi).contains(&v) / (lo..hi).contains(&v)
+                rng, v = x[2]
+                while rng[0] in ("ref", "deref"):
+                    rng = rng[1]
+                lo = hi = None
+                if rng[0] == "call" and rng[1] == "new" and len(rng[2]) == 2:
+                    lo, hi = self.ev(rng[2][0]), self.ev(rng[2][1])
+                elif rng[0] == "agg" and rng[1].endswith("Range") and len(rng[3]) == 2:
+                    lo, hi = self.ev(rng[3][0][1]), self.ev(rng[3][1][1])
+                    hi = hi - 1 if hi is not None else None
+                lf = leaf_name(strip_casts(v))
+                if lo is not None and hi is not None and lf and lo <= hi:
+                    return [(("range", lf, lo, hi), k == "true")]
             if x[0] == "call" and len(x[2]) >= 1:
                 lf = leaf_name(strip_casts(x[2][0]))
                 if lf is None:
